@@ -140,7 +140,7 @@ theorem decodeCore_norm (c : Bool) (w0 : Nat) (w1? : Option Nat) (hw0 : w0 < 2 ^
         rfl
 
 theorem decodeCore_desc (c : Bool) (w0 : Nat) (w1? : Option Nat) (i : Inst) (hw0 : w0 < 2 ^ 32)
-    (hw1 : ∀ w1, w1? = some w1 → w1 < 2 ^ 32) (h30 : sdwa30 w0 w1? = false)
+    (hw1 : ∀ w1, w1? = some w1 → w1 < 2 ^ 32)
     (h : decodeCore (lookUpArch c) c w0 w1? = .ok i) :
     normCore c w0 w1? = (encWord (descOf c i), encSecond (descOf c i)) := by
   unfold decodeCore at h
@@ -156,12 +156,7 @@ theorem decodeCore_desc (c : Bool) (w0 : Nat) (w1? : Option Nat) (i : Inst) (hw0
       have h13 := decodeRow_ok_ft13 h
       simp only [h13, if_true]
       have hop : extractBits w0 f.opLo f.opHi = row.opcode := (lookUpArch_some hl).2.2.symm
-      have h30' : f.ft = FT_VOP2 → extractBits w0 0 8 = 249 → ∀ w1, w1? = some w1 → extractBits w1 30 30 = 0 := by
-        intro hf h249 w1 hw
-        subst hw
-        simp only [sdwa30, hm, hf, h249, BEq.rfl, Bool.true_and, bne_eq_false_iff_eq] at h30
-        exact h30
-      obtain ⟨e1, e2⟩ := desc_row c f row w0 w1? i (matchFormat_mem hm) h13 hw0 hw1 (matchFormat_div hw0 hm) hop h30' h
+      obtain ⟨e1, e2⟩ := desc_row c f row w0 w1? i (matchFormat_mem hm) h13 hw0 hw1 (matchFormat_div hw0 hm) hop h
       rw [e1, e2]
 
 /-- the canonical second dword is no larger than the original one -/
